@@ -57,6 +57,12 @@ def argclass(e):
             parts.append("present" if args[0] in s else "absent")
     elif base in ("new_from_fp", "new_from_fd"):
         parts = [args[0], "empty" if not args[1] else "nonempty"]
+    elif base in ("new_fault", "reinit_fault"):
+        sc = args[3]
+        kinds = [("short" if sc[i] == 1 else ("eintr" if sc[i + 1] == 1 else "err")) for i in range(0, len(sc) - 1, 2) if sc[i] in (1, 2)]
+        parts = [args[0] + ":" + args[1], "sched=" + ("+".join(kinds) if kinds else "none"), "n<=4096" if len(args[2]) <= 4096 else "n>4096"]
+        if len(args) > 4:
+            parts.append("env=" + ("hard" if args[4] else ("eintr" if args[5] else "clean")))
     elif base == "reinit":
         parts.append(args[0] + (":" + args[1] if args[1] != "-" else ""))
         parts.append("empty" if not args[2] else "nonempty")
@@ -114,7 +120,7 @@ def keyfn(variant, e, f):
 
 def harness(ctx):
     libdir, cflags = build.build_lib(ctx.repo)
-    return build.build_harness("mbuff_replay", ["mbuff_replay.c"], libdir, cflags)
+    return build.build_harness("mbuff_replay", ["mbuff_replay.c"], libdir, cflags, ldflags=["-Wl,--wrap=read"])
 
 
 # ------------------------------------------------------------------------------------------------------------------
@@ -322,6 +328,177 @@ def gen_ops(rnd, m, nops, small):
 
 
 SIZES = [0, 1, 4095, 4096, 4097, 8193, 20000]
+FAULT_OPS = ("new_fault", "reinit_fault")
+THRESHOLDS = [8, 16, 32, 64, 128, 256, 512, 1024, 2048, 4096, 8192]
+THRESHOLDS_QUICK = [16, 128, 1024, 4096, 8192]
+
+
+# ---- round 3: size-sweep family (thresholds n-1, n, n+1 x position classes x aliased / distinct / pointer arguments) --------
+
+def sweep_exec(rnd, n):
+    """One long execution on a value of n bytes: every operation of the model at this size, the object-argument calls with the
+    argument ALIASING the receiver and with a distinct object of the same size, positions first / second / middle (8 alignments) /
+    next-to-last / last / absent.  Mutations are undone by a following splice so that the size class is kept."""
+    m = Mirror()
+    t = rnd_bytes(rnd, n, "any")
+    m.a = list(t)
+    ops = []
+
+    def emit(op, *args):
+        ops.append((op, list(args)))
+
+    def splice_model(i, c, ins):
+        a = m.a
+        k = i + len(a) if i < 0 else i
+        if 0 <= k < len(a) and 0 <= c <= len(a) - k:
+            m.a = a[:k] + list(ins) + a[k + c:]
+
+    def pos():
+        L = len(m.a)
+        return sorted(set(k for k in (0, 1, L // 2, L - 2, L - 1) if 0 <= k < L))
+
+    emit("new_from_buff", t, rnd.choice([0, n, n + 1, n + 4096])) if n % 2 else emit("new_from_ptr", t)
+    # queries, incl. aliased object arguments
+    emit("cmp", "self"); emit("ncmp", "self", n); emit("ncmp", "self", n + 1); emit("find", "self")
+    for c in (t[0], t[-1], t[n // 2]):
+        emit("index", c); emit("rindex", c)
+    absent = [v for v in range(256) if v not in set(t)]
+    if absent:
+        emit("index", absent[0]); emit("rindex", absent[-1])
+    for j in range(8):
+        k = min(n - 1, n // 2 + j)
+        emit("subbuff_to_ptr", k, 3)
+        emit("find_from_ptr", t[k:k + 5])
+    for k in pos():
+        emit("find_from_ptr", t[k:k + 4])
+        emit("subbuff_to_ptr", k, 0)
+    emit("find_from_ptr", t[-3:] + [t[0] ^ 0x55])
+    emit("cmp_with_ptr", t); emit("cmp_with_ptr", t[:-1] + [(t[-1] + 1) % 256]); emit("cmp_with_ptr", t[:-1])
+    emit("ncmp_with_ptr", t, n - 1); emit("ncmp_with_ptr", t + [7], n + 1)
+    # aliasing: the argument IS the receiver
+    emit("prepend", "self"); m.a = m.a + m.a
+    emit("splice", 0, n, "null"); splice_model(0, n, [])
+    emit("append", "self"); m.a = m.a + m.a
+    emit("splice", n, n, "null"); splice_model(n, n, [])
+    for k in pos():
+        emit("splice", k, 0, "self"); splice_model(k, 0, m.a)
+        emit("splice", k, n, "null"); splice_model(k, n, [])
+    emit("splice", 0, 1, "self"); splice_model(0, 1, m.a)
+    emit("splice", 0, n, "null"); splice_model(0, n, [])           # value is now t[1:] + ... keep whatever the model says
+    # a distinct object of the same size
+    emit("dup"); m.b = list(m.a)
+    emit("b_reverse"); m.b = m.b[::-1]
+    nb = len(m.b)
+    emit("prepend", "b"); m.a = m.b + m.a
+    emit("splice", 0, nb, "null"); splice_model(0, nb, [])
+    emit("append", "b"); m.a = m.a + m.b
+    emit("splice", len(m.a) - nb, nb, "null"); splice_model(len(m.a) - nb, nb, [])
+    for k in pos()[:3]:
+        emit("splice", k, 0, "b"); splice_model(k, 0, m.b)
+        emit("splice", k, nb, "null"); splice_model(k, nb, [])
+    emit("b_cmp_a"); emit("cmp", "b"); emit("find", "b"); emit("ncmp", "b", n)
+    emit("b_del"); m.b = None
+    # pointer arguments: small and of the same size
+    small = rnd_bytes(rnd, 3, "any")
+    emit("prepend_from_ptr", small); m.a = small + m.a
+    emit("splice", 0, 3, "null"); splice_model(0, 3, [])
+    emit("append_from_ptr", small); m.a = m.a + small
+    emit("splice", -3, 3, "null"); splice_model(-3, 3, [])
+    big = rnd_bytes(rnd, n, "any")
+    emit("prepend_from_ptr", big); m.a = big + m.a
+    emit("splice", 0, n, "null"); splice_model(0, n, [])
+    emit("append_from_ptr", big); m.a = m.a + big
+    emit("splice", -n, n, "null"); splice_model(-n, n, [])
+    for k in pos():
+        c = min(2, len(m.a) - k)
+        x = rnd_bytes(rnd, 2, "any")
+        emit("splice_from_ptr", k, c, x); splice_model(k, c, x)
+    for k in pos()[1:4]:
+        emit("subbuff", k, 0)
+        emit("b_cmp_a")
+        emit("b_del")
+    emit("subbuff", len(m.a), 1)                                    # absent position: refused
+    emit("reverse"); m.a = m.a[::-1]
+    emit("reverse"); m.a = m.a[::-1]
+    blank = [32, 9] + m.a + [10, 32]
+    emit("reinit", "ptr", "-", blank); m.a = blank
+    emit("trim"); m.a = _ideal_trim(m.a)
+    txt = [x for x in rnd_bytes(rnd, n, "text") if x not in (0, 37)] or [65]
+    emit("sprintf", "s", txt, 0); m.a = txt
+    emit("sprintf", "sd", txt, -42); m.a = txt + [58] + _dec(-42)
+    for ctor, kind in (("fd", "file"), ("fd", "pipe"), ("fp", "seek"), ("fp", "pieces"), ("fd", "seek"), ("fp", "file")):
+        emit("reinit", ctor, kind, t); m.a = list(t)
+        emit("cmp_with_ptr", t)
+    emit("clear", 233); m.a = [233] * len(m.a)
+    emit("rindex", 233); emit("index", 0)
+    emit("done")
+    return ops
+
+
+# ---- round 3: full-range value family (every byte value in every position class; thorough: every ordered pair) ------------
+
+def value_execs(rnd, quick):
+    execs = []
+    ops = [("new", [])]
+    for v in range(256):
+        w = (v * 7 + 13) % 256
+        fill = [(v + 1 + 37 * i) % 256 for i in range(6)]
+        for b in ([v] + fill + [v], fill[:3] + [v] + fill[3:], [v, w] + fill + [w, v]):
+            ops.append(("reinit", ["ptr", "-", b]))
+            ops.append(("index", [v])); ops.append(("rindex", [v]))
+            ops.append(("find_from_ptr", [[v, b[b.index(v) + 1] if b.index(v) + 1 < len(b) else v]]))
+            ops.append(("cmp_with_ptr", [b[:-1] + [(b[-1] + 1) % 256]]))
+            ops.append(("trim", []))
+            ops.append(("reverse", []))
+            ops.append(("subbuff_to_ptr", [0, 2]))
+        ops.append(("clear", [v])); ops.append(("sprintf", ["d", [], v * 8421505 % 2147483647 - 1073741823]))
+    execs.append(ops)
+    if not quick:
+        # every ordered pair of bytes adjacent somewhere in a 8..24-byte buffer, through the in-place transformers
+        pairs = [(x, y) for x in range(256) for y in range(256)]
+        rnd.shuffle(pairs)
+        ops = [("new", [])]
+        i = 0
+        while i < len(pairs):
+            L = rnd.randint(4, 12)
+            b = []
+            for x, y in pairs[i:i + L]:
+                b += [x, y]
+            i += L
+            ops.append(("reinit", ["ptr", "-", b]))
+            ops.append(("reverse", []))
+            ops.append(("trim", []))
+            if len(ops) > 3000:
+                execs.append(ops)
+                ops = [("new", [])]
+        execs.append(ops)
+    return execs
+
+
+# ---- round 3: environment faults (read() interposed / custom stream), schedules logged as event arguments -----------------
+
+def fault_execs(rnd, quick):
+    """schedule = flat list of (kind, value) per read call: 0 x normal, 1 x short read of at most x bytes, 2 e errno #e
+    (1 EINTR, 2 EAGAIN, 3 ECONNRESET, 4 EIO)."""
+    execs = []
+    sizes = [300, 4500] if quick else [1, 300, 4096, 4500, 9000]
+    for n in sizes:
+        t = rnd_bytes(rnd, n, "any")
+        scheds = [[], [1, 1], [1, n // 2], [1, max(1, n // 3), 1, 1]]
+        for e in (1, 2, 3, 4):
+            for k in (1, 2, 3):
+                scheds.append([0, 0] * (k - 1) + [2, e])
+            scheds.append([1, max(1, n // 3), 2, e])
+            scheds.append([2, e, 2, e])
+        if quick and n > 1000:
+            scheds = [sc for sc in scheds if sc and (sc[-2:] in ([2, 1], [2, 2]) or sc[0] == 1)]
+        for ctor in ("fd", "fp"):
+            for kind in ("file", "seek", "pipe"):
+                for sc in scheds:
+                    execs.append([("new_fault", [ctor, kind, t, sc])])
+                    execs.append([("new_from_ptr", [[1, 2, 3]]), ("reinit_fault", [ctor, kind, t, sc]), ("cmp", ["self"]),
+                                  ("rindex", [t[-1]]), ("append_from_ptr", [[9]])])
+    return execs
 
 
 def gen_executions(ctx):
@@ -340,6 +517,12 @@ def gen_executions(ctx):
                 m.a = list(t)
                 ops = [(ctor, [kind, t])] + gen_ops(rnd, m, 5 if quick else 12, small=False)
                 execs.append(ops)
+    # 1b. size sweep around the thresholds, value family, fault schedules (round 3)
+    for th in (THRESHOLDS_QUICK if quick else THRESHOLDS):
+        for n in (th - 1, th, th + 1):
+            execs.append(sweep_exec(rnd, n))
+    execs += value_execs(rnd, quick)
+    execs += fault_execs(rnd, quick)
     # 2. pointer / buffer constructors with the same sizes
     for n in SIZES:
         m = Mirror()
@@ -377,16 +560,16 @@ def validate_events(ctx, events, tag):
     with open(path, "w") as f:
         for e in events:
             f.write(json.dumps(e, separators=(",", ":")) + "\n")
+    notes = []
     res = run_tlc("MBuffObjTrace.tla", "MBuffObjTrace.cfg", ctx.rundir, workers=1, timeout=1500, env={"TRACE": path}, heap="8g",
-                  coverage=False)
-    txt = "\n".join(res.tail)
-    retbad = sorted(set(int(x) - 1 for x in re.findall(r'"RET_MISMATCH", (\d+)', txt)))
-    m = re.search(r'"TRACE_REJECTED_AFTER", (\d+), "OF", (\d+)', txt)
-    if m:
-        return False, int(m.group(1)), retbad
+                  coverage=False, on_edge=notes.append)
+    retbad = sorted(set(int(d["ret_mismatch"]) - 1 for d in notes if "ret_mismatch" in d))
+    rej = [d for d in notes if "rejected_after" in d]
+    if rej:
+        return False, int(rej[0]["rejected_after"]), retbad
     if res.ok:
         return True, len(events), retbad
-    raise Broken("trace validation run failed without a verdict:\n%s" % "\n".join(res.tail[-30:]))
+    raise Broken("trace validation run failed without a verdict:\n%s\n...\n%s" % ((res.violation or "")[:1500], "\n".join(res.tail[-6:])))
 
 
 def record_and_validate(ctx, exe, execs, variant="direct", tag="mbuff"):
@@ -432,7 +615,12 @@ def record_and_validate(ctx, exe, execs, variant="direct", tag="mbuff"):
         for step, ret, state in sorted(by[sid]):
             op, args = execs[sid - 1][step]
             post = untok(state)
-            ev = {"op": op, "args": args, "ret": untok(ret), "ca": post["a"] != prev["a"], "cb": post["b"] != prev["b"]}
+            rv = untok(ret)
+            if op in FAULT_OPS:
+                # the harness reports what the ENVIRONMENT did (errors returned, bytes delivered): event arguments
+                args = list(args) + [rv["hard"], rv["eintr"], rv["d"]]
+                rv = rv["ok"]
+            ev = {"op": op, "args": args, "ret": rv, "ca": post["a"] != prev["a"], "cb": post["b"] != prev["b"]}
             if ev["ca"]:
                 ev["pa"] = post["a"]
             if ev["cb"]:
@@ -445,37 +633,53 @@ def record_and_validate(ctx, exe, execs, variant="direct", tag="mbuff"):
     nvalid = 0
     accepted = True
     nretbad = 0
+    nrejected = 0
     if events:
-        ok, pos, retbad = validate_events(ctx, events, tag)
-        nvalid = pos
-        accepted = ok
-
         def cls_of(k):
             try:
                 return argclass({"op": events[k]["op"], "args": events[k]["args"], "pre": pres[k]})
             except Exception:
                 return "-"
-        for k in retbad:
-            # non-blocking: the value agreed, the returned value did not (TLC went on with the rest of the trace)
-            sid, step = index[k]
-            nretbad += 1
-            ctx.report("trace-ret %s.%s [%s]" % (variant, events[k]["op"], cls_of(k)),
-                       "%s: recorded execution %s step %s: returned value %s is not the one the specification allows: %s" % (
-                           variant, sid, step, json.dumps(events[k]["ret"])[:80], json.dumps(_clip(events[k]))[:400]),
-                       {"variant": variant, "harness_args": [variant], "program": execs[sid - 1][:step + 1], "event_index": k})
-        if not ok:
-            sid, step = index[pos] if pos < len(index) else (None, None)
-            evb = events[pos] if pos < len(events) else None
+        # TLC stops at the first event it rejects: that execution is reported and taken out, the REST of the trace (from the
+        # next execution on) is validated by a further run, so that one defect does not hide the others (at most 12 rounds)
+        base = 0
+        rounds = 0
+        while base < len(events) and rounds < 12:
+            rounds += 1
+            ok, pos, retbad = validate_events(ctx, events[base:], "%s-%d" % (tag, rounds))
+            for k in retbad:
+                k += base
+                # non-blocking: the value agreed, the returned value did not (TLC went on with the rest of the trace)
+                sid, step = index[k]
+                nretbad += 1
+                ctx.report("trace-ret %s.%s [%s]" % (variant, events[k]["op"], cls_of(k)),
+                           "%s: recorded execution %s step %s: returned value %s is not the one the specification allows: %s" % (
+                               variant, sid, step, json.dumps(events[k]["ret"])[:80], json.dumps(_clip(events[k]))[:400]),
+                           {"variant": variant, "harness_args": [variant], "program": execs[sid - 1][:step + 1], "event_index": k})
+            nvalid += pos
+            if ok:
+                break
+            accepted = False
+            nrejected += 1
+            k = base + pos
+            sid, step = index[k] if k < len(index) else (None, None)
+            evb = events[k] if k < len(events) else None
             opn = evb["op"] if evb else "?"
-            ctx.report("trace-rejected %s.%s [%s]" % (variant, opn, cls_of(pos) if evb else "-"),
-                       "%s: TLC rejects the recorded execution %s at event %d (step %s): %s" % (variant, sid, pos, step, json.dumps(evb)[:400]),
+            ctx.report("trace-rejected %s.%s [%s]" % (variant, opn, cls_of(k) if evb else "-"),
+                       "%s: TLC rejects the recorded execution %s at event %d (step %s): %s ... %s" % (
+                           variant, sid, k, step, json.dumps(evb)[:200], json.dumps(evb)[-160:]),
                        {"variant": variant, "harness_args": [variant], "program": execs[sid - 1][:step + 1] if sid else [],
-                        "event": _clip(evb), "event_index": pos})
-        else:
+                        "event": _clip(evb), "event_index": k})
+            # continue behind the rejected execution
+            nxt = k + 1
+            while nxt < len(events) and events[nxt]["op"] != "reset":
+                nxt += 1
+            base = nxt
+        if accepted:
             ctx.sample({"variant": variant, "trace_events": len(events), "executions": len(by) - len(bad), "max_len_seen": maxlen,
                         "first_events": [json.dumps(_clip(e))[:160] for e in events[1:4]]})
     return {"executions": len(execs), "recorded": len([s for s in by if s not in bad]), "events": len(events), "accepted_events": nvalid,
-            "accepted": accepted and not bad, "maxlen": maxlen, "ret_mismatches": nretbad}
+            "accepted": accepted and not bad, "maxlen": maxlen, "ret_mismatches": nretbad, "rejected": nrejected}
 
 
 def trace_validation(ctx, exe, variant="direct"):
